@@ -75,6 +75,7 @@ impl Prop for C20 {
             return Ok(());
         }
         let spec = ParamSpec::plain(c.method);
+        prime(&c.site, &spec, c.date, None, prime_selector(&c.site, c.date));
         let base = compute(&c.site, &spec, c.date, None);
         let mut s2 = c.site;
         s2.gmt = F(c.site.gmt.0 + d as f64);
